@@ -77,6 +77,66 @@ CORPUS = [True, False, 0, 1, -1, 2, 3, 11, 1.5, 0.0, -2.5, 2.0, "a", "b", "c", "
           {"n": 1, "extra": "e"}, {"n": "1"}, {"n": True}, {"x": "y"}, {"n": 1.0}, [{"n": 1}], [{"n": 1, "m": 2}], [{"x": "y"}], [{"n": 1, "zz": 0}]]
 
 
+OMIT = object()  # "no value given" (missing optionals are expressed by omission)
+
+
+def build(Chi, v):
+    return Chi() if v is OMIT else Chi(f=v)
+
+
+def make_chain(P, C, mode):
+    """Three levels: Grand(f: P) <- Parent (field made mandatory by decorator / re-annotated non-optional) <- Child(f: C)."""
+    from metador_core.schema import MetadataSchema
+    from metador_core.schema.decorators import make_mandatory
+    from metador_core.util.typing import unoptional
+    _ctr[0] += 1
+    mk = type(MetadataSchema)
+    Grand = mk(f"Gra{_ctr[0]}", (MetadataSchema,), {"__annotations__": {"f": P}, "__module__": __name__})
+    if mode == "mandatory":
+        Par = make_mandatory("f")(mk(f"Par{_ctr[0]}", (Grand,), {"__annotations__": {}, "__module__": __name__}))
+    else:
+        Par = mk(f"Par{_ctr[0]}", (Grand,), {"__annotations__": {"f": unoptional(P)}, "__module__": __name__})
+    Chi = mk(f"Chi{_ctr[0]}", (Par,), {"__annotations__": {"f": C}, "__module__": __name__})
+    return Grand, Par, Chi
+
+
+def check_chain(acc, pn, P, cn, C, mode):
+    from metador_core.schema.core import check_types
+    try:
+        Grand, Par, Chi = make_chain(P, C, mode)
+    except Exception:
+        acc.count("chains.class_creation_failed")
+        return
+    try:
+        check_types(Chi)
+        accepted = True
+    except (TypeError, ValueError):
+        accepted = False
+    acc.count(f"chains.{mode}.{'accepted' if accepted else 'rejected'}")
+    nvalid = 0
+    if accepted:
+        for v in CORPUS + [OMIT]:
+            try:
+                c = build(Chi, v)
+                b = bytes(c)
+            except Exception:
+                continue
+            nvalid += 1
+            acc.count("values_checked")
+            for anc in (Par, Grand):
+                try:
+                    anc.parse_raw(b)
+                except Exception as e:
+                    lvl = "parent" if anc is Par else "grandparent"
+                    acc.violation(f"unsound-override-3level:{mode}:{pn}<-{cn}",
+                                  f"three levels (grandparent f: {pn}; parent makes f {'mandatory by @make_mandatory' if mode == 'mandatory' else 'non-optional by re-annotation'}; "
+                                  f"child f: {cn}): check_types accepts the child, but its valid instance {b.decode().strip()} "
+                                  f"({'f omitted' if v is OMIT else repr(v)}) is rejected by the {lvl} ({type(e).__name__})",
+                                  {"parent": pn, "child": cn, "mode": mode, "value": None if v is OMIT else json.loads(json.dumps(v))})
+                    return
+    acc.case(["chain", mode, pn, cn], nontrivial=accepted and nvalid >= 1)
+
+
 def make_pair(P, C, declared=False):
     from metador_core.schema import MetadataSchema
     from metador_core.schema.decorators import override
@@ -103,9 +163,9 @@ def check_pair(acc, pn, P, cn, C):
     acc.count("pairs.accepted" if accepted else "pairs.rejected")
     nvalid = 0
     if accepted:
-        for v in CORPUS:
+        for v in CORPUS + [OMIT]:
             try:
-                c = Chi(f=v)
+                c = build(Chi, v)
             except Exception:
                 continue
             nvalid += 1
@@ -118,9 +178,9 @@ def check_pair(acc, pn, P, cn, C):
                 Par.parse_raw(b)
             except Exception as e:
                 acc.violation(f"unsound-override:{pn}<-{cn}",
-                              f"check_types accepts child field type {cn} for parent type {pn}, but value {v!r} is a valid child "
+                              f"check_types accepts child field type {cn} for parent type {pn}, but value {'<f omitted>' if v is OMIT else repr(v)} is a valid child "
                               f"instance ({b.decode().strip()}) that the parent rejects ({type(e).__name__})",
-                              {"parent": pn, "child": cn, "value": json.loads(json.dumps(v))})
+                              {"parent": pn, "child": cn, "value": None if v is OMIT else json.loads(json.dumps(v))})
                 break
     acc.case(["pair", pn, cn], nontrivial=accepted and nvalid >= 1)
     # declared override must be accepted regardless
@@ -212,6 +272,9 @@ def run_unit(u, acc):
         P = _pool[acc.tier]
         for cn in sorted(P):
             check_pair(acc, u["parent"], P[u["parent"]], cn, P[cn])
+            if u["parent"].startswith("Opt["):
+                for mode in ("mandatory", "reannotate"):
+                    check_chain(acc, u["parent"], P[u["parent"]], cn, P[cn], mode)
         if u["parent"] == "Int":
             acc.sample({"parent_type": "Int", "child_types": sorted(P)[:10], "corpus_head": [repr(v) for v in CORPUS[:12]]})
     elif u["kind"] == "ancestors":
@@ -222,13 +285,15 @@ def run_unit(u, acc):
 
 def inconclusive(cov):
     c = cov["counters"]
-    return [f"monitor counter {k} is zero" for k in ("pairs.accepted", "pairs.rejected", "values_checked", "ancestor_parses", "extra_policy_checks", "declared_overrides_accepted") if not c.get(k)]
+    return [f"monitor counter {k} is zero" for k in ("pairs.accepted", "pairs.rejected", "values_checked", "ancestor_parses", "extra_policy_checks", "declared_overrides_accepted", "chains.mandatory.accepted", "chains.mandatory.rejected", "chains.reannotate.rejected") if not c.get(k)]
 
 
 def replay(case, acc):
     if "parent" in case:
         P = pool("thorough")
         check_pair(acc, case["parent"], P[case["parent"]], case["child"], P[case["child"]])
+        if case.get("mode"):
+            check_chain(acc, case["parent"], P[case["parent"]], case["child"], P[case["child"]], case["mode"])
     elif case.get("kind") == "extra":
         check_extra_policy(acc)
     else:
